@@ -119,6 +119,17 @@ class Ambient(System):
             HOOK["fn"](self.model, self.id, self.model.systems.timestep)
 
 
+class BombError(Exception):
+    pass
+
+
+class Bomb(System):
+    """A system that fails inside its timestep (the caller catches the error and carries on with OTHER models)."""
+
+    def execute(self):
+        raise BombError(f"{self.id} failed at t={self.model.systems.timestep}")
+
+
 class Stopper(System):
     def execute(self):
         if self.model.systems.timestep >= self.model.cfg["horizon"] - 1:
@@ -186,6 +197,16 @@ class ChaosModel(Model):
             env.add_agent(a)
         self.trace.append(["birth", aid, a.tag, a[Wealth].w if Wealth in a else None, _pos(a) if PositionComponent in a else None])
 
+    def between(self):
+        """Driver-level draws: what a run loop (or a score function) does with the framework's random helpers between two
+        timesteps of this model - outside any timestep."""
+        if not self.cfg.get("driver_draws") or not self.is_running():
+            return
+        env = self.environment
+        a = env.get_random_agent()
+        order = env.shuffle(Wealth)
+        self.trace.append(["driver", a.id if a else None, [x.id for x in order[:6]]])
+
     def finish(self):
         col = self.systems["AgentCollector"]
         if col is not None:
@@ -203,6 +224,7 @@ class ChaosModel(Model):
         guard = 0
         while self.is_running() and guard < 500:
             self.execute()
+            self.between()
             guard += 1
         return self.digest()
 
@@ -222,4 +244,5 @@ def gen_cfg(rng, tier="quick"):
     return {"world": world, "w": rng.randint(2, 7), "h": rng.randint(2, 6), "pop": rng.randint(3, 12),
             "systems": names, "horizon": rng.randint(5, 30 if tier == "thorough" else 14),
             "ambient": [rng.choice([5, 3, 2, 1, 0, -1, -5]) for _ in range(rng.randint(0, 3))],
-            "collector": rng.random() < 0.8, "radius": rng.choice([1, 1, 2]), "nmode": rng.choice(["moore", "neumann"])}
+            "collector": rng.random() < 0.8, "radius": rng.choice([1, 1, 2]), "nmode": rng.choice(["moore", "neumann"]),
+            "driver_draws": rng.random() < 0.4}
